@@ -10,7 +10,7 @@ LEVEL = "exploration"
 RULE = (
     "exhaustive: every shape with <= 8 (quick) / 10 (thorough) nodes and every full shape (0 or 2 children) with <= 17 / 21 nodes, each laid out with "
     "unit multipliers (1,1) and one other pair from {0.5,1,2,3}^2, laid out a second and third time on the same nodes, on "
-    "a fresh tree, and mirrored; plus Hypothesis-drawn shapes to 60 (quick) / 200 (thorough) nodes (general and full); oracle clauses: (a) y == "
+    "a fresh tree, and mirrored; plus a deterministic family of 133 956 uneven-depth shapes (chains, zigzags, small bushy trees composed twice, to 31 nodes; every 2nd per quick run) and Hypothesis-drawn shapes to 60 (quick) / 200 (thorough) nodes (general and full); oracle clauses: (a) y == "
     "depth*unit_y, (b) left child strictly left / right child strictly right, (c) two-child parent centred, (d) nodes of a "
     "level in tree order >= unit_x apart, (e) reported bounds == bounding box, width/height/centre consistent, (f) same "
     "coordinates on a fresh tree and on repeated layout, x scales with unit_x, (g) mirrored shape gives mirrored x; "
@@ -194,6 +194,17 @@ def run(ctx):
         check_shape(ctx, {"shape": text, "ux": UNITS[i % 4], "uy": UNITS[(i // 4 + 1) % 4]})
     ctx.info["exhaustive"] = True
     ctx.info["exhaustive_bound"] = f"all shapes <= {10 if ctx.tier == 'thorough' else 8} nodes and all full shapes <= {21 if ctx.tier == 'thorough' else 17} nodes ({len(shapes)} shapes), two multiplier pairs each"
+    # uneven-depth family: chains, zigzags and small bushy trees composed twice (to 31 nodes) - where contours of very
+    # different depth meet; every 2nd shape per quick run (offset by the seed), all of them in the thorough tier
+    comp = S.composed_shapes()
+    cstep = 2 if ctx.tier == "quick" else 1
+    for i, sh in enumerate(comp):
+        if i % cstep != ctx.seed % cstep or (i // cstep) % ctx.nshards != ctx.shard:
+            continue
+        ctx.count("evaluations")
+        ctx.count("composed:shapes")
+        check_shape(ctx, {"shape": S.to_text(sh), "ux": UNITS[i % 4], "uy": UNITS[(i // 4) % 4]})
+    ctx.info["composed_family"] = f"{len(comp)} shapes composed from chains, zigzags and small bushy trees (<= 31 nodes); every {cstep}th checked in this tier"
     units = st.sampled_from(UNITS)
     big = 60 if ctx.tier == "quick" else 200
     rnd = st.builds(lambda s, a, b: {"shape": s, "ux": a, "uy": b}, st.one_of(S.shape_strategy(big, 9), S.shape_strategy(big - 1, 19, full=True)), units, units)
